@@ -20,7 +20,7 @@ RULE = ('object graphs built from an abstract tree: (x) the exhaustive box of al
         "feature id/name/seqid/type entries are JSON scalars of every type with emphasis on the falsy ones 0, None, False, 0.0, -0.0, ''; locations "
         'with tied sort keys), metadata trees of depth <= 4 over None/bool/int (up to 2^200)/float (incl. nan, inf, -0.0)/str (quotes, backslashes, '
         'control and non-ASCII Latin-1 characters)/list/plain dict/Attr/Meta, 0-3 features with 1-3 locations, keys drawn from a pool containing '
-        "private keys ('_x', '_', '_fmt', '_fmtcomment', '_cls'), constructor parameter names, 'self', 'str' and the excluded F20 names, each through a "
+        "private keys ('_x', '_', '_fmt', '_fmtcomment', '_cls'), constructor parameter names, 'self', 'str' and the excluded F20 names (those of them that round-trip on the unchanged tree are compared by the relational stream (k) at every level), each through a "
         "random transport: write/read of a file (fmt given / from the extension, encoding default / utf-8 / latin-1 / ascii), read through a "
         "glob pattern matching exactly the written file, write(..., archive='zip'|'tar'|'gztar'|True) + read of the produced archive, or "
         'tofmtstr -> fromfmtstr (with and without fmt); (m) a mutation stream leaving the domain (lower-case residues, missing id, mixed strands, '
@@ -59,7 +59,9 @@ ASSUMPTIONS = ['Python str restricted to Latin-1 code points; dict keys are str 
                'object graphs reachable through the constructors: residues upper-case ASCII (BioSeq.__init__ upper-cases; seq.str.lower() '
                'leaves this domain and is NOT preserved), meta.id present, type in {nt, aa}, one strand per feature with locations in '
                "5'->3' order (LocationTuple invariant), mappings directly inside Attr are Attr, defect sets 0..255",
-               "open finding F20: keys naming a public attribute of Attr/Meta (items, keys, ..., tostr) are outside the domain",
+               "open finding F20: keys naming a public attribute of Attr/Meta (items, keys, ..., tostr) are outside the domain OF THE THEOREMS; the check "
+               "still compares every such key that round-trips on the unchanged tree (measured per run and per level: today all but 'keys' in sequence/"
+               "feature/location/basket metadata, every one in nested mappings) by a relational stream without the model",
                "plain dicts nested in lists must not contain the format's own tag key '_cls' (reading such a file raises KeyError or builds an object)"]
 LEVEL_TEXT = ('Machine-checked Coq theorems over all object graphs of the domain predicate wf (arbitrary nesting, any number of sequences, '
               'features and locations): reading what the SJSON writer produced returns exactly the input with, in every Attr/Meta mapping, '
@@ -105,7 +107,7 @@ LEVEL_NOTE = ('Trusted: Coq kernel/vm_compute, tools/gen_data.py + tools/gens/c1
               'digits of a float literal are decided by CPython and opaque, code points beyond Latin-1 are outside the model str). Not rebuilt from the lost round-6 list: BioSeq.rc/BioBasket.rc with update_fts, FeatureList.slice and sequence slicing as modelled operations (their flag arithmetic is covered by C14_flags_closed, their LocationTuple step by C14_locationtuple_ordered_any). The byte comparison accepts a text that differs ONLY in the order of the entries of its objects (counted in the evidence: written_text_vs_gallina_printer; today all texts are byte-equal). Tested only (not proved): writes whose format comes from a multi-suffix file name (24 names x 4 entry points incl. BioSeq.write and pathlib.Path; names that are SJSON only up to case may be refused), '
               'the transports/encodings (strings beyond Latin-1 incl. astral characters and lone surrogates are exercised through every transport by a '
               'relational check without the model), float repr round trip, state independence (histories). Domain restrictions (see assumptions): '
-              "F20 key names; '_cls' inside plain dicts; lower-case residues, several strands in one feature and location tuples out of order (each now PROVED to be necessary, see the border theorems); tuples and non-str dict keys (proved to come back changed). Fixed findings: F21, reserved_meta_keys (056e094), F54 failed_write_state (05ec4a0: after a write that failed because "
+              "F20 key names (outside the theorems, but TESTED: the regenerated list of public Attr/Meta attribute names plus self/str/cls/meta/mro is probed once per run ON THE UNCHANGED TREE for each of sequence, feature, location, basket and nested metadata -- evidence reserved_key_table -- and every measured-good (level, key), alone and in combinations, is written and read back through a random transport and compared through vars(); only the measured-bad ones, today 'keys' at the four re-wrapped levels, are left to F20); '_cls' inside plain dicts; lower-case residues, several strands in one feature and location tuples out of order (each now PROVED to be necessary, see the border theorems); tuples and non-str dict keys (proved to come back changed). Fixed findings: F21, reserved_meta_keys (056e094), F54 failed_write_state (05ec4a0: after a write that failed because "
               "the metadata was not JSON-representable '_fmtcomment' stayed in the basket's __dict__ and every later SJSON write raised TypeError; "
               "'failed write -> repair -> write again' is now an ordinary step of the history stream and a corpus case). "
               'Statement coverage of the modelled functions (anchored_source_statement_coverage): everything reachable is executed in the quick tier; '
@@ -922,7 +924,20 @@ def gen_cases(rng, tier):
         cases.append({'kind': 'flags', 'd': d, 's': STRANDS[d % 4]})
     for i in range(200 if tier != 'thorough' else 1500):
         cases.append(g_preop_case(rng))
-    return cases
+    return _balance(cases)
+
+
+def _balance(cases, piles=16):
+    """the framework evaluates the cases in contiguous shards (one coqc each, 16 at a time): deal the expensive ones (histories: a
+    third of all literal bytes in 300 cases) evenly over the shards instead of leaving them in two of them; the set of cases is
+    unchanged, only their order"""
+    cost = [len(model_term(c)) for c in cases]
+    order = sorted(range(len(cases)), key=lambda i: (-cost[i], i))
+    buckets = [[] for _ in range(piles)]
+    for n, i in enumerate(order):
+        r = n % (2 * piles)
+        buckets[r if r < piles else 2 * piles - 1 - r].append(i)
+    return [cases[i] for b in buckets for i in sorted(b)]
 
 
 # ----------------------------------------------------------------------------- histories (state-independence stream)
@@ -2099,6 +2114,156 @@ def g_preop_case(rng):
 
 
 # ----------------------------------------------------------------------------- relational checks without the model
+# Keys named like public attributes of Attr/Meta (region of the open finding F20: Attr keeps its items in the instance __dict__).
+# The Coq domain excludes the whole regenerated list; on the real code most of these names DO round-trip, only a few (the ones the
+# reader's own code path needs, e.g. 'keys' for dict(meta)) do not.  Which ones is MEASURED once per run on the unchanged tree
+# (/repo, in a subprocess - not on the tree under test, so that a tree that loses a key does not silently shrink the domain) for
+# every level of the graph; exactly the measured-good (level, key) pairs are compared, the others stay with F20.
+RKEY_LEVELS = ('seq', 'feature', 'location', 'basket', 'nested', 'nested_in_list')
+RKEY_EXTRA = ['self', 'str', 'cls', 'meta', 'mro']
+RKEY_VALUES = [7, 0, None, '', 'x y', False, ['l', 1, 'two'], ['l'], ['Attr', ['a', 1]], ['Attr'], ['f', '1.5']]
+
+
+def reserved_names():
+    """regenerated from the tree under test: public names an Attr/Meta instance resolves as attributes (= SJSON_ATTR_RESERVED)"""
+    from sugar.core.meta import Attr, Meta
+    return sorted(n for n in set(dir(Meta)) | set(dir(Attr)) if not n.startswith('_'))
+
+
+def rkey_inject(g, level, pairs):
+    """put the [key, value] pairs into the mapping at the given level of the first sequence / its first feature (created if absent)"""
+    g = _copy.deepcopy(g)
+    if level == 'basket':
+        tgt = g[2]
+    else:
+        if not g[1]:
+            g[1].append(['BioSeq', 'ACGTN', 'nt', ['Meta', ['id', 's1']]])
+        sm = g[1][0][3]
+        if level == 'seq':
+            tgt = sm
+        elif level in ('nested', 'nested_in_list'):
+            tgt = ['Attr' if level == 'nested' or len(pairs) % 2 else 'Meta']
+            sm[1:] = [p for p in sm[1:] if p[0] != 'rk' + level]
+            sm.append(['rk' + level, tgt if level == 'nested' else ['l', 1, tgt]])
+        else:
+            fts = ([p[1] for p in sm[1:] if p[0] == 'fts'] or [None])[0]
+            if fts is None:
+                fts = ['FeatureList']
+                sm.append(['fts', fts])
+            if len(fts) == 1:
+                fts.append(['Feature', ['Meta', ['type', 'CDS']], [['Location', 2, 9, '-', 3, None]]])
+            ft = fts[1]
+            if level == 'feature':
+                tgt = ft[1]
+            else:
+                if ft[2][0][5] is None:
+                    ft[2][0][5] = ['Meta']
+                tgt = ft[2][0][5]
+    have = set(p[0] for p in tgt[1:])
+    for k, v in pairs:
+        if k not in have:
+            have.add(k)
+            tgt.insert(1 + (len(k) + len(tgt)) % len(tgt), [k, _copy.deepcopy(v)])
+    return g
+
+
+def _rkey_try(g, via):
+    """None when the graph is constructible through the public API and comes back equal (vars()-based snapshot), else why not"""
+    try:
+        b, assign = build(g), False
+        if _diff(snap(b), expected_snapshot(g)) is not None:
+            b, assign = build(g, assign=True), True
+        d = _diff(snap(b), expected_snapshot(g))
+        if d is not None:
+            return 'not constructible: ' + d[:200], None
+        got = snap(roundtrip(b, via))
+        d = _diff(canon(expected_snapshot(g)), canon(got))
+        if d is None and _diff(snap(b), expected_snapshot(g)) is not None:
+            d = 'writing changed the object that was written'
+        return (None if d is None else 'written vs read back ' + d[:300]), got
+    except Exception as e:
+        return 'raised %s: %s' % (type(e).__name__, str(e)[:160]), {'e': type(e).__name__}
+
+
+def rkey_probe_here(names):
+    """measured table {level: [keys that round-trip with every probe value through str and file]} on the tree that is imported"""
+    base = ['BioBasket', [['BioSeq', 'ACGTN', 'nt', ['Meta', ['id', 's1'], ['note', 'n']]]], ['Meta', ['title', 't']]]
+    table = {}
+    for level in RKEY_LEVELS:
+        good = []
+        for k in names:
+            ok = True
+            for n, v in enumerate(RKEY_VALUES):
+                if _rkey_try(rkey_inject(base, level, [[k, v]]), 'str' if n % 2 else 'file')[0] is not None:
+                    ok = False
+                    break
+            if ok:
+                good.append(k)
+        table[level] = good
+    return table
+
+
+_RKEY_TABLE = {}
+
+
+def rkey_table():
+    """the table measured ON THE UNCHANGED TREE (/repo) for the reserved names of the tree under test; one subprocess per run"""
+    if 'table' in _RKEY_TABLE:
+        return _RKEY_TABLE
+    import subprocess, sys
+    names = sorted(set(reserved_names()) | set(RESERVED) | set(RKEY_EXTRA))
+    base = os.environ.get('VERIF_BASE_REPO', '/repo')
+    tools = os.path.dirname(os.path.dirname(os.path.abspath(__file__)))
+    table, where = None, 'unchanged tree ' + base
+    if os.path.isdir(os.path.join(base, 'sugar')):
+        env = dict(os.environ, SUGAR_REPO=base, PYTHONPATH=base + os.pathsep + tools, PYTHONHASHSEED='0')
+        code = ('import sys, json\nimport props.c14 as m\nimport sugar, os\n'
+                'assert os.path.realpath(os.path.dirname(os.path.dirname(sugar.__file__))) == os.path.realpath(%r), sugar.__file__\n'
+                'print("RKEYTABLE" + json.dumps(m.rkey_probe_here(json.loads(sys.argv[1]))))\n' % base)
+        try:
+            r = subprocess.run([sys.executable, '-c', code, json.dumps(names)], env=env, cwd='/tmp', capture_output=True, text=True, timeout=300)
+            for line in r.stdout.splitlines():
+                if line.startswith('RKEYTABLE'):
+                    table = json.loads(line[len('RKEYTABLE'):])
+        except Exception:
+            table = None
+    if table is None:                                                    # pragma: no cover
+        table, where = rkey_probe_here(names), 'tree under test (probe of the unchanged tree failed)'
+    _RKEY_TABLE.update({'table': table, 'names': names, 'where': where})
+    return _RKEY_TABLE
+
+
+def rkey_checks(rng, tier, cov):
+    """(6) metadata keys named like attributes of Attr/Meta at sequence, feature, location, basket and nested level"""
+    t = rkey_table()
+    table, names = t['table'], t['names']
+    cov['reserved_key_table'] = {'measured_on': t['where'], 'names': names,
+                                 'left_to_F20': {lv: [k for k in names if k not in table[lv]] for lv in RKEY_LEVELS}}
+    pairs = [(lv, k) for lv in RKEY_LEVELS for k in table[lv]]
+    n = 0
+    if not pairs:
+        yield {'case': {'kind': 'rkey', 'b': None}, 'impl': None, 'noshrink': True, 'spec': 'no reserved-name key round-trips on the unchanged tree (probe broken?)'}
+        return
+    # every measured-good (level, key) once, in a small random basket, through a random transport ...
+    todo = [[p] for p in pairs]
+    # ... then combinations: several such keys in one mapping and at several levels of one basket
+    for i in range(400 if tier == 'thorough' else 60):
+        todo.append([rng.choice(pairs) for _ in range(rng.choice([2, 3, 5]))])
+    for sel in todo:
+        g = g_basket(rng, {}, rng.choice([1, 2]))
+        for lv in RKEY_LEVELS:
+            ps = [[k, rng.choice(RKEY_VALUES)] for l, k in sel if l == lv]
+            if ps:
+                g = rkey_inject(g, lv, ps)
+        via = rng.choice(VIAS)
+        why, got = _rkey_try(g, via)
+        n += 1
+        if why is not None:
+            yield {'case': {'kind': 'rkey', 'via': via, 'keys': [list(p) for p in sel], 'b': g}, 'impl': got, 'noshrink': True,
+                   'spec': 'metadata keys %s (measured to round-trip on the unchanged tree): %s' % (', '.join('%s@%s' % (k, l) for l, k in sel), why)}
+    cov['reserved_key_checks'] = n
+
+
 def extra_checks(rng, tier, cov):
     """(1) the bundled GenBank example with strands/defects/location metadata set through the public API survives;
        (2) a second write/read is the identity, private keys included (fixpoint)."""
@@ -2211,3 +2376,5 @@ def extra_checks(rng, tier, cov):
     cov['multi_suffix_name_checks'] = nn
     cov['relational_checks'] = n
     cov['written_text_vs_gallina_printer'] = dict(TEXT_STATS)
+    for v in rkey_checks(rng, tier, cov):
+        yield v
